@@ -33,7 +33,7 @@ RULE = (
     "refinement pairs; V-TREES on every returned solution.  Non-trivial: some node has >=3 children; distinct by SHA-1 of the case."
 )
 ASSUMPTIONS = ["coherent costs in layer B", "solutions compared by clades", "unordered solvers compared with the canonical-labelling set when it attains the all-labellings optimum"]
-BUDGET = {"quick": {"random": 400}, "thorough": {"random": 6000}}
+BUDGET = {"quick": {"random": 600}, "thorough": {"random": 6000}}
 EXHAUSTIVE_RULE = {"quick": "all rooted leaf-labelled trees with 2..5 leaves", "thorough": "all rooted leaf-labelled trees with 2..6 leaves"}
 
 
@@ -168,6 +168,11 @@ def _case(draw):
     op, sp = draw(st.sampled_from([(1, 0), (0, 1), (1, 1), (2, 0)]))
     case = draw(gen.rec_case(max_obj=4, max_sp=4, min_obj=3, min_sp=1, costs="coherent", labelled=True, max_fam=3,
                              obj_poly=op, sp_poly=sp, allow_inconsistent=(algo == "ext_spfs"), prescribed_root=(algo == "ext_spfs"), prescribed_odds=(1, 2)))
+    if gen.chance(draw, 1, 5):
+        # on the boundary of the region with free losses (spe == dup, floss == sloss == 0): every refinement ties in
+        # the tables, decoded solutions differ
+        d = draw(st.integers(0, 2))
+        case["costs"] = {"SPECIATION": d, "DUPLICATION": d, "HORIZONTAL_TRANSFER": draw(gen.HGT), "FULL_LOSS": 0, "SEGMENTAL_LOSS": 0}
     case["_algo"] = algo
     case["_kind"] = "solve"
     # colours on arbitrary nodes and blanked ancestor names (by pre-order position), applied by _decorate
@@ -265,6 +270,16 @@ def check_solve(case):
     any_out = pkg.run_algo(algo, inp, "ANY")
     if len(any_out) != 1:
         raise Violation(f"{algo}.ANY.count", observed=len(any_out), expected=1)
+    # the single solution of policy ANY is one of the optimal ones over all refinements
+    ocase, ot, stt = case_of_output(any_out[0], base["costs"])
+    check_refinement(orig_o, ot, f"{algo}.ANY.object")
+    check_refinement(orig_s, stt, f"{algo}.ANY.species")
+    ainst = Instance(ocase)
+    _m, _lab, tot = validate_output(ainst, any_out[0], algo, "ANY")
+    if tot != best:
+        raise Violation(f"{algo}.ANY.cost!=min-over-refinements", observed=tot, expected=best)
+    if _clade_key(ainst, ot, stt, pkg.canon_output(any_out[0], labelled=True, ordered=ordered), ordered) not in union:
+        raise Violation(f"{algo}.ANY.not-in-union-of-refinement-optima", observed="other solution", expected="member of the ALL set")
     labels = [f"algo={algo}", f"pairs={'1' if n_pairs == 1 else '2-9' if n_pairs < 10 else '10+'}", "polytomy" if poly else "binary"]
     for t in (orig_o, orig_s):
         if any(t.features[n].get("color") is not None and t.name[n] == "" for n in t.nodes()):
